@@ -31,6 +31,14 @@ class Opt:
 
 
 @dataclass(frozen=True)
+class XReal:
+    """Extended real (timeouts): +infinity or a finite real.  NaN is excluded (validate_timeout_delay rejects it)."""
+
+    isinf: Any  # z3 Bool
+    v: Any  # z3 Real (meaningful when not isinf)
+
+
+@dataclass(frozen=True)
 class View:
     """memoryview over a ByteBuf heap object: base[lo:hi] (lo/hi are z3 Ints, 0 <= lo <= hi <= len(base))."""
 
